@@ -99,9 +99,9 @@ NoResult == pc \in {"crashed", "failed"}
 Demanded(ops, space) == (NoResult /\ op \in ops) => ~space
 CleanDemanded == Demanded(CleanOps, ~D.lenient)
 
-C02 == (AtCleanReturn => C02_On(LastSrc, DL, out)) /\ CleanDemanded
-C03 == (AtCleanReturn => C03_On(LastSrc, DL, out)) /\ CleanDemanded
-C04 == (AtCleanReturn => C04_On(LastSrc, DL, out)) /\ Demanded(CleanOps, ~D.lenient /\ ReadyElems(D) = {})
+C02 == (AtCleanReturn => LET dl == DL IN C02_On(LastSrc, dl, out)) /\ CleanDemanded
+C03 == (AtCleanReturn => LET dl == DL IN C03_On(LastSrc, dl, out)) /\ CleanDemanded
+C04 == (AtCleanReturn => LET dl == DL IN C04_On(LastSrc, dl, out)) /\ Demanded(CleanOps, ~D.lenient /\ ReadyElems(D) = {})
 
 Decisions_On(t, d, o) == C02_On(t, d, o) /\ C03_On(t, d, o) /\ C04_On(t, d, o)
 
@@ -125,7 +125,7 @@ C05_Mono ==
         (h.op \in CleanOps /\ h.src = LastSrc /\ SameSpelling(h.cfg, cfg) /\ h.cfg.targets = cfg.targets
          /\ LaterOrEqual(cfg.now, h.cfg.now)) => IsSubseq(NonWs(out), NonWs(h.out))
 
-C05 == C05_Eval /\ C05_Mono /\ (AtCleanReturn => Decisions_On(LastSrc, DL, out))
+C05 == C05_Eval /\ C05_Mono /\ (AtCleanReturn => LET dl == DL IN Decisions_On(LastSrc, dl, out))
 
 C06_Eval ==
   (pc = "eval_done" /\ op = "eval_marker") =>
@@ -175,7 +175,7 @@ CliFaithful ==
                 (h.op = LibOpOf(r) /\ h.src = me.src /\ h.cfg = cfg) => Payload(r) = h.out
 
 C20 == CliFaithful
-C06 == C06_Eval /\ CliFaithful /\ (AtCleanReturn => Decisions_On(LastSrc, DL, out))
+C06 == C06_Eval /\ CliFaithful /\ (AtCleanReturn => LET dl == DL IN Decisions_On(LastSrc, dl, out))
 
 (***************************************************************************)
 (* C09 tag grammar: recorded parse = reference parse for tags inside the   *)
@@ -198,7 +198,7 @@ C09_Parse ==
 \* reference extent: the tag tokens the parse ran on are those of the reference scan (what C08 demands of tokenize)
 C09_Tokens == pc = "tags_done" => TagSpansOf(toks) = RefSpans(file, cfg.ds, cfg.de)
 
-C09 == C09_Parse /\ C09_Tokens /\ (AtCleanReturn => Decisions_On(LastSrc, DL, out))
+C09 == C09_Parse /\ C09_Tokens /\ (AtCleanReturn => LET dl == DL IN Decisions_On(LastSrc, dl, out))
 
 (***************************************************************************)
 (* C10 pairing with stack discipline, every token once and in order.       *)
@@ -251,11 +251,11 @@ C13_On(t, d, o) ==
 C14_On(t, d, o) ==
   (~d.lenient /\ \A e \in UnwrappedElems(d) : e.alone) => Locality(t, d, o)
 
-C11 == (AtCleanReturn => C11_On(LastSrc, DL, out)) /\ Demanded(CleanOps, ~D.lenient /\ BlockStyle(D) /\ WrapperLinesClean(file, D))
-C12 == (AtCleanReturn => C12_On(LastSrc, DL, out))
+C11 == (AtCleanReturn => LET dl == DL IN C11_On(LastSrc, dl, out)) /\ Demanded(CleanOps, ~D.lenient /\ BlockStyle(D) /\ WrapperLinesClean(file, D))
+C12 == (AtCleanReturn => LET dl == DL IN C12_On(LastSrc, dl, out))
        /\ Demanded(CleanOps, ~D.lenient /\ BlockStyle(D) /\ WrapperLinesClean(file, D) /\ RegularNesting(file, D))
-C13 == (AtCleanReturn => C13_On(LastSrc, DL, out)) /\ Demanded(CleanOps, ~D.lenient /\ BlockStyle(D) /\ ~HasReadyUnwrap(D))
-C14 == (AtCleanReturn => C14_On(LastSrc, DL, out)) /\ Demanded(CleanOps, ~D.lenient /\ \A e \in UnwrappedElems(D) : e.alone)
+C13 == (AtCleanReturn => LET dl == DL IN C13_On(LastSrc, dl, out)) /\ Demanded(CleanOps, ~D.lenient /\ BlockStyle(D) /\ ~HasReadyUnwrap(D))
+C14 == (AtCleanReturn => LET dl == DL IN C14_On(LastSrc, dl, out)) /\ Demanded(CleanOps, ~D.lenient /\ \A e \in UnwrappedElems(D) : e.alone)
 
 (***************************************************************************)
 (* C15 - C17 listing.                                                      *)
@@ -340,6 +340,21 @@ C18 ==
            ELSE /\ Len(items) = Len(h.items)
                 /\ \A k \in 1..Len(items) : items[k].lr = h.items[k].lr /\ items[k].status = h.items[k].status
 
+\* the same through the command line: a process run whose options denote the respelled configuration, on the respelled
+\* source, yields the respelled result of the earlier (library or process) run under the other spelling
+C18_Cli ==
+  (pc = "cli_done" /\ res.cur_given /\ CfgOfOpts(res, cfg)) =>
+     LET me == hist[Len(hist)] IN
+     \A i \in 1..(Len(hist) - 1) :
+        LET h == hist[i] IN
+        (h.cfg.now = cfg.now /\ h.cfg.targets = cfg.targets /\ h.cfg.off = cfg.off
+         /\ CleanlySpelled(h.src, h.cfg, cfg) /\ Respell(h.src, h.cfg, cfg) = me.src) =>
+           /\ (h.op = "clean" /\ res.mode = "clean") => (res.exit = 0 /\ Payload(res) = Respell(h.out, h.cfg, cfg))
+           /\ (h.op = "list_json" /\ res.mode = "list" /\ res.json) =>
+                 /\ res.exit = 0 /\ res.payload_json_ok
+                 /\ Len(res.payload_items) = Len(h.items)
+                 /\ \A k \in 1..Len(h.items) : res.payload_items[k].lr = h.items[k].lr /\ res.payload_items[k].status = h.items[k].status
+
 (***************************************************************************)
 (* C19 idempotence and composition over time.                              *)
 (***************************************************************************)
@@ -362,7 +377,8 @@ C19_CompSpace ==
   LET cs == Commits IN
   /\ pc = "returned" /\ op = "commit"
   /\ Chained(cs) /\ DelimsOnlyInTags(cs[1].src, cfg) /\ ~Doc(cs[1].src, cfg).lenient
-  /\ WrapperLinesNeverTagged(cs[1].src, Doc(cs[1].src, cfg))
+  /\ \/ WrapperLinesNeverTagged(cs[1].src, Doc(cs[1].src, cfg))
+     \/ WrapperLinesTolerable(cs[1].src, Doc(cs[1].src, cfg), {Doc(cs[1].src, cs[k].cfg) : k \in 1..Len(cs)})
 
 C19_Comp ==
   C19_CompSpace =>
@@ -380,13 +396,13 @@ C19 == C19_Idem /\ C19_Comp
 (* on a sample of every job and report how often it held.                   *)
 (***************************************************************************)
 App_C01 == pc \in {"returned", "crashed", "failed"}
-App_C02 == AtCleanReturn /\ ~DL.lenient /\ ReadyElems(DL) # {}
+App_C02 == AtCleanReturn /\ LET dl == DL IN ~dl.lenient /\ ReadyElems(dl) # {}
 App_C03 == App_C02
-App_C04 == AtCleanReturn /\ ~DL.lenient /\ ReadyElems(DL) = {}
+App_C04 == AtCleanReturn /\ LET dl == DL IN ~dl.lenient /\ ReadyElems(dl) = {}
 App_C05 == \/ (pc = "eval_done" /\ op = "eval_time" /\ TimeDecision(EvalElem(cfg.tl, Str_to), cfg) # "lenient")
-           \/ (AtCleanReturn /\ ~DL.lenient /\ \E e \in DL.elems : e.p.name = cfg.tl)
+           \/ (AtCleanReturn /\ LET dl == DL IN ~dl.lenient /\ \E e \in dl.elems : e.p.name = cfg.tl)
 App_C06 == \/ (pc = "eval_done" /\ op = "eval_marker" /\ MarkerDecision(EvalElem(cfg.rm, Str_name), cfg) # "lenient")
-           \/ (AtCleanReturn /\ ~DL.lenient /\ \E e \in DL.elems : e.p.name = cfg.rm)
+           \/ (AtCleanReturn /\ LET dl == DL IN ~dl.lenient /\ \E e \in dl.elems : e.p.name = cfg.rm)
            \/ (pc = "cli_done" /\ res.cur_given /\ CfgOfOpts(res, cfg))
 App_C07 == AtTokens /\ Len(toks) >= 2
 App_C08 == AtTokens /\ RefSpans(file, cfg.ds, cfg.de) # <<>>
@@ -396,16 +412,16 @@ App_C09 == \/ (pc = "tags_done" /\ \E i \in 1..Len(tags) :
 App_C10 == pc \in {"tree_done", "treed"} /\
            LET tg == ObsTagDescs(file, toks, cfg.ds, cfg.de) IN
            (~\E i \in 1..Len(tg) : tg[i].cls = "lenient" \/ (tg[i].cls = "ok" /\ OddName(tg[i].name))) /\ StackPairs(tg) # {}
-App_C11 == AtCleanReturn /\ ~DL.lenient /\ BlockStyle(DL) /\ WrapperLinesClean(LastSrc, DL)
-           /\ \E e \in DL.elems : e.uw /\ e.st = "ready"
-App_C12 == AtCleanReturn /\ ~DL.lenient /\ BlockStyle(DL) /\ WrapperLinesClean(LastSrc, DL) /\ RegularNesting(LastSrc, DL)
-           /\ \E u \in UnwrappedElems(DL) : DedentCols(LastSrc, DL, u) # {} /\ InnerLines(u) # {}
-App_C13 == AtCleanReturn /\ ~DL.lenient /\ BlockStyle(DL) /\ ~HasReadyUnwrap(DL) /\ ReadyElems(DL) # {}
-App_C14 == AtCleanReturn /\ ~DL.lenient /\ ReadyElems(DL) # {} /\ \A e \in UnwrappedElems(DL) : e.alone
-App_C15 == AtListReturn /\ op \in {"list", "list_json"} /\ ~D.lenient /\ C15Space(file, D) /\ ReadyRegions(D) # <<>>
-App_C16 == AtListReturn /\ ~D.lenient /\ C16Space(file, D) /\ (\A i \in 1..Len(file) : file[i] # CR) /\ AllRegions(D) # <<>>
-App_C17 == AtListReturn /\ op = "list_all_json" /\ ~D.lenient /\ C15Space(file, D)
-           /\ \E k \in 1..Len(AllRegions(D)) : AllRegions(D)[k][2] = "Pending"
+App_C11 == AtCleanReturn /\ LET dl == DL IN ~dl.lenient /\ BlockStyle(dl) /\ WrapperLinesClean(LastSrc, dl)
+           /\ \E e \in dl.elems : e.uw /\ e.st = "ready"
+App_C12 == AtCleanReturn /\ LET dl == DL IN ~dl.lenient /\ BlockStyle(dl) /\ WrapperLinesClean(LastSrc, dl) /\ RegularNesting(LastSrc, dl)
+           /\ \E u \in UnwrappedElems(dl) : DedentCols(LastSrc, dl, u) # {} /\ InnerLines(u) # {}
+App_C13 == AtCleanReturn /\ LET dl == DL IN ~dl.lenient /\ BlockStyle(dl) /\ ~HasReadyUnwrap(dl) /\ ReadyElems(dl) # {}
+App_C14 == AtCleanReturn /\ LET dl == DL IN ~dl.lenient /\ ReadyElems(dl) # {} /\ \A e \in UnwrappedElems(dl) : e.alone
+App_C15 == AtListReturn /\ op \in {"list", "list_json"} /\ LET dd == D IN ~dd.lenient /\ C15Space(file, dd) /\ ReadyRegions(dd) # <<>>
+App_C16 == AtListReturn /\ LET dd == D IN ~dd.lenient /\ C16Space(file, dd) /\ (\A i \in 1..Len(file) : file[i] # CR) /\ AllRegions(dd) # <<>>
+App_C17 == AtListReturn /\ op = "list_all_json" /\ LET dd == D IN ~dd.lenient /\ C15Space(file, dd)
+           /\ \E k \in 1..Len(AllRegions(dd)) : AllRegions(dd)[k][2] = "Pending"
 App_C18 == pc = "returned" /\ op \in {"clean", "list_json"} /\
            \E i \in 1..(Len(hist) - 1) :
               LET h == hist[i] IN
